@@ -181,7 +181,8 @@ Definition Inv (s : pmstate) (p : N) (done : list N) (w : N) (r : list N) (stk :
   length (fl s) = length h /\
   (forall x, In x r -> rd h x Fch = Some 0) /\
   (forall x f, In x L -> flag s x = Some f -> unmatched f = true -> rd h x Fmt = Some 0) /\
-  stk_ok stk done /\ (forall x, In x stk -> rd h x Fmt = Some 0).
+  stk_ok stk done /\ (forall x, In x stk -> rd h x Fmt = Some 0) /\
+  ordered h /\ bounded h.
 
 Lemma in_skipn {A} (l : list A) n x : In x (skipn n l) -> In x l.
 Proof. revert l; induction n as [|n IH]; intros l H; [exact H|]. destruct l; [destruct H|]. right. apply IH, H. Qed.
@@ -192,11 +193,19 @@ Proof. intros M F i j Zj. rewrite !F. apply M, Zj. Qed.
 Lemma dl_frame h h' : dl h -> (forall j, rd h' j Fnx = rd h j Fnx /\ rd h' j Fpv = rd h j Fpv) -> dl h'.
 Proof. intros D F i j Zj. destruct (F i) as [A B]. destruct (F j) as [A' B']. rewrite A, B, A', B'. apply D, Zj. Qed.
 
+Lemma order_frame h h' : ordered h -> bounded h ->
+  (forall j g, g = Fnx \/ g = Fst \/ g = Fln -> rd h' j g = rd h j g) -> ordered h' /\ bounded h'.
+Proof.
+  intros O B F. split.
+  - intros i j si li sj Zj. rewrite !F by tauto. apply O, Zj.
+  - intros i si li. rewrite !F by tauto. apply B.
+Qed.
+
 Lemma try_close_inv e s p done w r stk :
   Inv s p done w r stk ->
   exists s' stk' w' done', try_close e p 0 s stk w = Some (s', stk', w') /\ Inv s' p done' w' r stk'.
 Proof.
-  intros (HS & ND & Tl & D & M & Vp & Np & Pc & LF & Rch & FM & SK & SKm).
+  intros (HS & ND & Tl & D & M & Vp & Np & Pc & LF & Rch & FM & SK & SKm & Or & Bd).
   assert (Keep : exists s' stk' w' done', Some (s, stk, w) = Some (s', stk', w') /\ Inv s' p done' w' r stk').
   { exists s, stk, w, done. split; [reflexivity|]. unfold Inv. repeat (split; [assumption|]). assumption. }
   assert (Vw : valid (hp s) w) by (eapply seg_valid; [exact HS|apply in_or_app; right; left; reflexivity]).
@@ -229,6 +238,8 @@ Proof.
   rewrite (Fr1' peek Fty) by discriminate. rewrite Epty. cbn [obind].
   assert (S1 : seg (hp s1) 0 (a ++ peek :: m ++ w :: r) 0).
   { eapply seg_frame; [| |exact HS]; [intros y _ Vy; apply VV1, Vy|]. intros y _. split; apply Fr1'; discriminate. }
+  destruct (order_frame (hp s) (hp s1) Or Bd) as [Or1 Bd1].
+  { intros j0 g Hg. apply Fr1'. intro X. rewrite X in Hg. destruct Hg as [|[|]]; discriminate. }
   (* the stack that remains lives in a *)
   assert (SKa_in : forall x, In x (skipn (S j) stk) -> In x a) by (intros x Hx; eapply stk_ok_in; eauto).
   destruct (should_prune e (pair_type e pty wty)) eqn:SP.
@@ -248,6 +259,8 @@ Proof.
     destruct (graft_preserves_dl (hp s1) a m r peek w (pair_type e pty wty) w D1 S1 ND Mpk1 Hmm1 Tl1) as (h2 & H2'' & D2).
     assert (h2 = hp s2) by congruence. subst h2.
     destruct (graft_preserves_msym (hp s1) a m r peek w (pair_type e pty wty) w M1 S1 ND Mpk1 Hmm1 Tl1) as (h2 & H2''' & M2).
+    assert (h2 = hp s2) by congruence. subst h2.
+    destruct (graft_preserves_order (hp s1) a m r peek w (pair_type e pty wty) w D1 Or1 Bd1 S1 ND Mpk1 Hmm1 Tl1) as (h2 & H2'''' & Or2 & Bd2).
     assert (h2 = hp s2) by congruence. subst h2.
     set (c := fresh (hp s1)) in *.
     assert (VV2 : forall y, valid (hp s1) y -> valid (hp s2) y).
@@ -332,14 +345,16 @@ Proof.
         + apply valid_neq_fresh, VV1, Vx.
         + intros [X _]. contradiction. }
     split; [exact SKa|].
-    intros x Hx. pose proof (SKa_in x Hx) as Hxa.
-    assert (Vx : valid (hp s) x) by (eapply seg_valid; [exact HS|apply in_or_app; left; exact Hxa]).
-    assert (Nxp : x <> peek) by (intro X; apply Pa; rewrite <- X; exact Hxa).
-    assert (Nxw : x <> w) by (intro X; apply Wa; rewrite <- X; exact Hxa).
-    rewrite Fr3nx by discriminate. rewrite Fr2; try (intros [_ X]; discriminate); try assumption.
-    + rewrite Fr1; try (intros [X _]; contradiction). apply SKm. eapply in_skipn; eauto.
-    + apply valid_neq_fresh, VV1, Vx.
-    + intros [X _]. contradiction.
+    split.
+    { intros x Hx. pose proof (SKa_in x Hx) as Hxa.
+      assert (Vx : valid (hp s) x) by (eapply seg_valid; [exact HS|apply in_or_app; left; exact Hxa]).
+      assert (Nxp : x <> peek) by (intro X; apply Pa; rewrite <- X; exact Hxa).
+      assert (Nxw : x <> w) by (intro X; apply Wa; rewrite <- X; exact Hxa).
+      rewrite Fr3nx by discriminate. rewrite Fr2; try (intros [_ X]; discriminate); try assumption.
+      + rewrite Fr1; try (intros [X _]; contradiction). apply SKm. eapply in_skipn; eauto.
+      + apply valid_neq_fresh, VV1, Vx.
+      + intros [X _]. contradiction. }
+    apply (order_frame (hp s2) h3 Or2 Bd2). intros j0 g Hg. apply Fr3nx. intro X. rewrite X in Hg. destruct Hg as [|[|]]; discriminate.
   - (* mated, not grafted (emphasis markers) *)
     exists s1, (skipn (S j) stk), w, done. split; [reflexivity|].
     unfold Inv. rewrite EL.
@@ -359,6 +374,7 @@ Proof.
       rewrite (Fl1 x Zx Nxp Nxw) in Hf.
       rewrite Fr1; try (intros [X _]; contradiction). apply (FM x f); [rewrite EL; exact Hx|exact Hf|exact Uf]. }
     split; [rewrite Ed; apply stk_ok_app; exact SKa|].
+    split; [|split; assumption].
     intros x Hx. pose proof (SKa_in x Hx) as Hxa.
     assert (Nxp : x <> peek) by (intro X; apply Pa; rewrite <- X; exact Hxa).
     assert (Nxw : x <> w) by (intro X; apply Wa; rewrite <- X; exact Hxa).
@@ -369,7 +385,7 @@ Qed.
 Definition Final (s : pmstate) (p : N) (L : list N) : Prop :=
   let h := hp s in
   seg h 0 L 0 /\ NoDup L /\ (L <> [] -> rd h (hd 0 L) Ftl = Some (List.last L 0)) /\ dl h /\ msym h /\
-  rd h p Fch = Some (hd 0 L) /\ length (fl s) = length h.
+  rd h p Fch = Some (hd 0 L) /\ length (fl s) = length h /\ ordered h /\ bounded h.
 
 Lemma try_open_inv e s p done w r stk :
   Inv s p done w r stk ->
@@ -379,7 +395,7 @@ Lemma try_open_inv e s p done w r stk :
     | w2 :: r' => Inv s p (done ++ [w]) w2 r' stk' /\ rd (hp s) w2 Fch = Some 0
     end.
 Proof.
-  intros (HS & ND & Tl & D & M & Vp & Np & Pc & LF & Rch & FM & SK & SKm).
+  intros (HS & ND & Tl & D & M & Vp & Np & Pc & LF & Rch & FM & SK & SKm & Or & Bd).
   assert (Vw : valid (hp s) w) by (eapply seg_valid; [exact HS|apply in_or_app; right; left; reflexivity]).
   destruct (flag_some s w LF Vw) as [wf Ewf]. destruct (rd_valid (hp s) w Fty Vw) as [wty Ewty].
   unfold try_open. rewrite Ewf, Ewty. cbn [obind].
@@ -390,7 +406,7 @@ Proof.
   destruct r as [|w2 r'].
   - unfold Final. split; [exact HS|]. split; [exact ND|].
     split; [intros _; rewrite hd_app_cons, last_last; exact Tl|].
-    split; [exact D|]. split; [exact M|]. split; [rewrite hd_app_cons; exact Pc|exact LF].
+    split; [exact D|]. split; [exact M|]. split; [rewrite hd_app_cons; exact Pc|]. split; [exact LF|]. split; assumption.
   - split; [|apply Rch; left; reflexivity].
     unfold Inv. rewrite <- app_assoc. cbn [app].
     split; [exact HS|]. split; [exact ND|].
@@ -400,10 +416,10 @@ Proof.
     split; [intros x Hx; apply Rch; right; exact Hx|].
     split; [exact FM|].
     destruct (can_open wf && can_open_pair e wty && unmatched wf) eqn:C.
-    + split; [apply stk_ok_push, SK|].
+    + split; [apply stk_ok_push, SK|]. split; [|split; assumption].
       intros x [<-|Hx]; [|apply SKm, Hx].
       apply (FM w wf); [apply in_or_app; right; left; reflexivity|exact Ewf|]. apply andb_prop in C. tauto.
-    + split; [apply stk_ok_app, SK|exact SKm].
+    + split; [apply stk_ok_app, SK|]. split; [exact SKm|split; assumption].
 Qed.
 
 Section WalkProof.
@@ -441,12 +457,12 @@ End WalkProof.
 Theorem first_pass_coherent e s p w r fuel :
   let h := hp s in
   seg h 0 (w :: r) 0 -> NoDup (w :: r) -> rd h w Ftl = Some (List.last r w) ->
-  dl h -> msym h -> valid h p -> ~ In p (w :: r) -> rd h p Fch = Some w ->
+  dl h -> msym h -> ordered h -> bounded h -> valid h p -> ~ In p (w :: r) -> rd h p Fch = Some w ->
   length (fl s) = length h ->
   (forall x, In x (w :: r) -> rd h x Fch = Some 0 /\ rd h x Fmt = Some 0) ->
   exists s' L', match_pairs (S fuel) e s [] p 0 = Some (s', []) /\ Final s' p L'.
 Proof.
-  intros h HS ND Tl D M Vp Np Pc LF Init.
+  intros h HS ND Tl D M Or Bd Vp Np Pc LF Init.
   cbn [match_pairs]. change (0 =? kMaxPairRecursiveDepth) with false. cbn iota.
   fold h. rewrite Pc. cbn [obind length].
   assert (I0 : Inv s p [] w r []).
@@ -455,7 +471,7 @@ Proof.
     split; [exact Vp|]. split; [exact Np|]. split; [exact Pc|]. split; [exact LF|].
     split; [intros x Hx; apply Init; right; exact Hx|].
     split; [intros x f Hx _ _; apply Init, Hx|].
-    split; [exact I|intros x []]. }
+    split; [exact I|]. split; [intros x []|]. split; assumption. }
   assert (C0 : rd (hp s) w Fch = Some 0) by (apply Init; left; reflexivity).
   destruct (walk_inv (fun s stk w => match_pairs fuel e s stk w (0 + 1)) e p r ((S (length (hp s))) * 2) s [] w [] I0 C0) as (s' & stk' & L' & E & F).
   { pose proof (seg_length _ _ _ _ ND HS) as Len. cbn [length] in Len. unfold h in Len. lia. }
@@ -501,6 +517,26 @@ Proof.
   pose proof (rd_some_valid _ _ _ _ E) as V. exact (back_ok_sound h Fmt Fmt i j (C i (valid_in_ids h i V)) Zj E).
 Qed.
 
+Definition ord_ok (h : heap) (i : N) : bool :=
+  match rd h i Fnx, rd h i Fst, rd h i Fln with
+  | Some j, Some si, Some li =>
+      (si + li <? W) && ((j =? 0) || match rd h j Fst with Some sj => si + li <=? sj | None => true end)
+  | _, _, _ => true
+  end.
+Definition order_check (h : heap) : bool := forallb (ord_ok h) (ids_of h).
+
+Lemma order_check_sound h : order_check h = true -> ordered h /\ bounded h.
+Proof.
+  intro C. unfold order_check in C. rewrite forallb_forall in C. split.
+  - intros i j si li sj Zj Hn Hs Hl Hj.
+    pose proof (C i (valid_in_ids h i (rd_some_valid _ _ _ _ Hn))) as B. unfold ord_ok in B. rewrite Hn, Hs, Hl, Hj in B.
+    apply andb_prop in B. destruct B as [_ B]. rewrite (proj2 (N.eqb_neq j 0) Zj) in B. cbn [orb] in B. apply N.leb_le, B.
+  - intros i si li Hs Hl.
+    pose proof (rd_some_valid _ _ _ _ Hs) as V. destruct (rd_valid h i Fnx V) as [j Hn].
+    pose proof (C i (valid_in_ids h i V)) as B. unfold ord_ok in B. rewrite Hn, Hs, Hl in B.
+    apply andb_prop in B. destruct B as [B _]. apply N.ltb_lt, B.
+Qed.
+
 (* non-vacuity: "[a *b* ]" - six tokens under a parent, brackets pruned, stars only mated *)
 Definition ex_env : penv := env_of [mkpr 1 2 50 5; mkpr 3 3 51 0].
 Definition ex_state : pmstate :=
@@ -510,11 +546,12 @@ Definition ex_state : pmstate :=
 Example first_pass_applies :
   let h := hp ex_state in
   seg h 0 [1; 2; 3; 4; 5; 6] 0 /\ NoDup [1; 2; 3; 4; 5; 6] /\ rd h 1 Ftl = Some (List.last [2; 3; 4; 5; 6] 1) /\
-  dl h /\ msym h /\ valid h 7 /\ ~ In 7 [1; 2; 3; 4; 5; 6] /\ rd h 7 Fch = Some 1 /\ length (fl ex_state) = length h /\
+  dl h /\ msym h /\ (ordered h /\ bounded h) /\ valid h 7 /\ ~ In 7 [1; 2; 3; 4; 5; 6] /\ rd h 7 Fch = Some 1 /\ length (fl ex_state) = length h /\
   (forall x, In x [1; 2; 3; 4; 5; 6] -> rd h x Fch = Some 0 /\ rd h x Fmt = Some 0) /\
   exists s', match_pairs 8 ex_env ex_state [] 7 0 = Some (s', []) /\
              rd (hp s') 7 Fch = Some 1 /\ rd (hp s') 1 Fty = Some 50 /\ rd (hp s') 1 Fch = Some 8 /\ rd (hp s') 6 Fmt = Some 8 /\
-             rd (hp s') 3 Fmt = Some 5 /\ rd (hp s') 5 Fmt = Some 3 /\ dl_check (hp s') = true /\ msym_check (hp s') = true.
+             rd (hp s') 3 Fmt = Some 5 /\ rd (hp s') 5 Fmt = Some 3 /\ dl_check (hp s') = true /\ msym_check (hp s') = true /\
+             order_check (hp s') = true.
 Proof.
   cbn zeta.
   split; [cbn; unfold valid; cbn; repeat split; try lia; discriminate|].
@@ -522,6 +559,7 @@ Proof.
   split; [reflexivity|].
   split; [apply dl_check_sound; vm_compute; reflexivity|].
   split; [apply msym_check_sound; vm_compute; reflexivity|].
+  split; [apply order_check_sound; vm_compute; reflexivity|].
   split; [unfold valid; cbn; split; [discriminate|lia]|].
   split; [cbn; intuition discriminate|].
   split; [reflexivity|]. split; [reflexivity|].
